@@ -457,6 +457,8 @@ let handle (fields : string list) : string * string =
           "started:" ^ ks k.k_paa_enc ^ ks k.k_paa_sign ^ ks k.k_user_enc ^ ks k.k_session ^ ks k.k_session_enc) in
     (m, if m = impl then "ok"
         else if impl = "started-without-tls" then "fail:serves-without-tls-although-tls-is-not-disabled"
+        else if String.length impl > 16 && String.sub impl 0 16 = "started-serving:" && m <> "fatal"
+        then "fail:serves-mechanisms-other-than-the-configured-ones"
         else if String.length impl >= 7 && String.sub impl 0 7 = "started" && m = "fatal" then "fail:unsafe-configuration-started"
         else if impl = "fatal" then "fail:safe-configuration-refused"
         else "fail:key-substitution")
